@@ -133,6 +133,30 @@ def accounting(ctx, spec, T, seed):
     ctx.count("accounting_runs")
 
 
+def late_grid(ctx, spec, seed):
+    """a grid that starts long after every firing and every delivery has happened (A -> delayed B at rate 10 per molecule,
+    delays around 0.5, grid from t = 4): every reported row already holds all the delayed products.  (The chance that a
+    molecule of A survives to t = 3 is 20 e^-30.)"""
+    T1 = np.linspace(4.0, 6.0, 201)
+    for dl, pv in (({"type": "fixed", "delay": "tau"}, {"tau": 0.5}), ({"type": "gaussian", "mean": "mu", "std": "sd"}, {"mu": 0.5, "sd": 0.05}),
+                   ({"type": "gamma", "k": "gk", "theta": "gt"}, {"gk": 4.0, "gt": 0.1})):
+        sp = {"species": ["A", "B"], "reactions": [{"reactants": ["A"], "products": [], "dreactants": [], "dproducts": ["B"],
+                                                     "prop": {"type": "massaction", "k": "k0"}, "delay": dl}],
+              "params": dict(pv, k0=10.0), "ic": {"A": 20, "B": 0}}
+        ctx.begin_case({"late_grid": sp, "seed": seed})
+        M = build_model(sp)
+        r = simcorr.run_real(M, "delay", T1, seed, float(T1[1] - T1[0]))
+        ctx.evaluated()
+        sl = M.get_species_list()
+        b = r["rows"][:, sl.index("B")]
+        if np.any(b != 20):
+            i = int(np.argmax(b != 20))
+            ctx.violation("delivery-time/late-grid", "delay %s: at t=%g (long after every firing time plus delay) only %g of 20 delayed products are reported"
+                          % (dl["type"], T1[i], b[i]), {"spec": sp, "seed": seed, "grid_start": 4.0, "row": i, "B": b[:6].tolist()})
+            return
+        ctx.count("late_grid_runs")
+
+
 def sampler_corr(ctx, rng):
     """Delay samplers: the model's draws equal py_normal_rv / py_gamma_rv / py_uniform_rv bit for bit; KS support."""
     from bioscrape.random import py_seed_random, py_normal_rv, py_gamma_rv, py_uniform_rv, py_exponential_rv
@@ -204,11 +228,14 @@ def run(ctx):
     for i in range(nnet):
         spec = gen_delay_network(rng)
         T = np.linspace(0, rng.choice([2.0, 5.0, 10.0]), rng.choice([11, 41, 101]))
+        if i % 4 == 3:
+            T = T + rng.choice([0.5, 2.0])        # the grid starts after the interface's initial time 0
         seeds = [rng.randint(1, 2**31) for _ in range(nseeds)]
         corr(ctx, spec, T, seeds)
         if i % 3 == 0:
             corr(ctx, spec, T, seeds[:2], kind="delayvolume")
         accounting(ctx, spec, np.linspace(0, 5.0, 501), seeds[0])
+        late_grid(ctx, spec, seeds[0])
         # fixed delays placed relative to the simulated horizon (the queue has as many slots as grid points):
         # just inside, at, and just beyond it
         fixed = [r for r in spec["reactions"] if (r.get("delay") or {}).get("type") == "fixed"]
